@@ -551,6 +551,7 @@ func specSliceCmd(e int) *pb.QosCommandAddArg {
 //@   requires C16.meterwrite.index: forall k int :: 0 <= k && k < len(entries) ==> entries[k] != nil && entries[k].Index != nil && 0 <= entries[k].Index.Index && entries[k].Index.Index < oracleP4MeterSize(entries[k].MeterId)
 //@   appends p4meter
 //@   ensures gfield("p4meter.method", gentry("p4meter", glen("p4meter")-1)) == uint64(methodType) && gfield("p4meter.ptr", gentry("p4meter", glen("p4meter")-1)) == uint64(sliceRef(entries)) && gfield("p4meter.off", gentry("p4meter", glen("p4meter")-1)) == uint64(lo(entries)) && gfield("p4meter.n", gentry("p4meter", glen("p4meter")-1)) == uint64(len(entries))
+//@   ensures gfield("p4meter.ok", gentry("p4meter", glen("p4meter")-1)) == specB2U(err == nil)
 
 // specMeterEntry: the k-th MeterEntry of the write logged as entry e of "p4meter".
 func specMeterEntry(e int, k int) *p4.MeterEntry {
@@ -1277,6 +1278,10 @@ func gsOthersSame(fam string, a, b int) bool { panic("ghost builtin") }
 
 func gsIsAdd(fam string, obj int, v any) bool { panic("ghost builtin") }
 
+func gsTagged[T any](fam string, obj int) bool { panic("ghost builtin") }
+
+func gsOthersSameByType[T any](fam string) bool { panic("ghost builtin") }
+
 func gsIsRemove(fam string, obj int, v any) bool { panic("ghost builtin") }
 
 func setHas(s set.Set, v any) bool { return gsHas("set", dynRef(s), v) }
@@ -1368,7 +1373,7 @@ func specSessCellsTaken(up4 *UP4, m meter) bool {
 //@   ensures C15.appmeter.nomigrate: gsSame("set", dynRef(up4.sessMeterCellIDsPool)) && gsOthersSame("set", dynRef(up4.appMeterCellIDsPool), dynRef(up4.sessMeterCellIDsPool))
 //@   ensures C15.appmeter.ok: err == nil ==> m.meterType == meterTypeApplication && specAppCellsTaken(up4, m) && (bidirectional <==> m.uplinkCellID != m.downlinkCellID)
 //@   ensures C16.appmeter.range: err == nil ==> 1 <= m.uplinkCellID && int64(m.uplinkCellID) < specAppCells() && 1 <= m.downlinkCellID && int64(m.downlinkCellID) < specAppCells()
-//@   ensures C04.appmeter.write: glen("p4meter") <= old[int](glen("p4meter"))+1 && (err == nil ==> glen("p4meter") == old[int](glen("p4meter"))+1)
+//@   ensures C04.appmeter.write: glen("p4meter") <= old[int](glen("p4meter"))+1 && (err == nil ==> glen("p4meter") == old[int](glen("p4meter"))+1 && gfield("p4meter.ok", gentry("p4meter", old[int](glen("p4meter")))) == 1)
 //@   ensures C04.appmeter.entries: err == nil ==> gfield("p4meter.method", gentry("p4meter", old[int](glen("p4meter")))) == uint64(p4.Update_MODIFY) && specMeterEntry(gentry("p4meter", old[int](glen("p4meter"))), 0).MeterId == p4constants.MeterPreQosPipeAppMeter && specMeterEntry(gentry("p4meter", old[int](glen("p4meter"))), 0).Index.Index == int64(m.uplinkCellID)
 //@   ensures C04.appmeter.entries2: err == nil && bidirectional ==> gfield("p4meter.n", gentry("p4meter", old[int](glen("p4meter")))) == 2 && specMeterEntry(gentry("p4meter", old[int](glen("p4meter"))), 1).MeterId == p4constants.MeterPreQosPipeAppMeter && specMeterEntry(gentry("p4meter", old[int](glen("p4meter"))), 1).Index.Index == int64(m.downlinkCellID)
 //@   ensures C04.appmeter.entries1: err == nil && !bidirectional ==> gfield("p4meter.n", gentry("p4meter", old[int](glen("p4meter")))) == 1
@@ -1381,7 +1386,7 @@ func specSessCellsTaken(up4 *UP4, m meter) bool {
 //@   ensures C15.sessmeter.nomigrate: gsSame("set", dynRef(up4.appMeterCellIDsPool)) && gsOthersSame("set", dynRef(up4.appMeterCellIDsPool), dynRef(up4.sessMeterCellIDsPool))
 //@   ensures C15.sessmeter.ok: err == nil ==> m.meterType == meterTypeSession && specSessCellsTaken(up4, m) && m.uplinkCellID != m.downlinkCellID
 //@   ensures C16.sessmeter.range: err == nil ==> 1 <= m.uplinkCellID && int64(m.uplinkCellID) < specSessCells() && 1 <= m.downlinkCellID && int64(m.downlinkCellID) < specSessCells()
-//@   ensures C04.sessmeter.write: glen("p4meter") <= old[int](glen("p4meter"))+1 && (err == nil ==> glen("p4meter") == old[int](glen("p4meter"))+1)
+//@   ensures C04.sessmeter.write: glen("p4meter") <= old[int](glen("p4meter"))+1 && (err == nil ==> glen("p4meter") == old[int](glen("p4meter"))+1 && gfield("p4meter.ok", gentry("p4meter", old[int](glen("p4meter")))) == 1)
 //@   ensures C04.sessmeter.entries: err == nil ==> gfield("p4meter.method", gentry("p4meter", old[int](glen("p4meter")))) == uint64(p4.Update_MODIFY) && gfield("p4meter.n", gentry("p4meter", old[int](glen("p4meter")))) == 2 && specMeterEntry(gentry("p4meter", old[int](glen("p4meter"))), 0).MeterId == p4constants.MeterPreQosPipeSessionMeter && specMeterEntry(gentry("p4meter", old[int](glen("p4meter"))), 0).Index.Index == int64(m.uplinkCellID) && specMeterEntry(gentry("p4meter", old[int](glen("p4meter"))), 1).MeterId == p4constants.MeterPreQosPipeSessionMeter && specMeterEntry(gentry("p4meter", old[int](glen("p4meter"))), 1).Index.Index == int64(m.downlinkCellID)
 
 // specCellPoolBelow: the pool under construction holds only uint32 values in [1, i).
@@ -1481,6 +1486,8 @@ func specMetersInv(up4 *UP4, appSize, sessSize int64) bool {
 //@   requires specMetersInv(up4, specAppCells(), specSessCells())
 //@   ensures C15.meters.inv: specMetersInv(up4, specAppCells(), specSessCells())
 //@   ensures C15.meters.others: gsOthersSame("set", dynRef(up4.appMeterCellIDsPool), dynRef(up4.sessMeterCellIDsPool))
+//@   ensures C15.meters.reject: err == nil ==> forall k int :: old[int](glen("p4meter")) <= k && k < glen("p4meter") ==> gfield("p4meter.ok", gentry("p4meter", k)) == 1
+//@   loop 1 invariant C15.meters.l1.reject: forall k int :: old[int](glen("p4meter")) <= k && k < glen("p4meter") ==> gfield("p4meter.ok", gentry("p4meter", k)) == 1
 //@   ensures C04.meters.ok: err == nil ==> forall j int :: 0 <= j && j < len(qers) && (qers[j].qosLevel == ApplicationQos || qers[j].qosLevel == SessionQos) ==> has(up4.meters, meterID{qers[j].qerID, qers[j].fseID})
 //@   loop 1 invariant C15.meters.l1.inv: specMetersInv(up4, specAppCells(), specSessCells())
 //@   loop 1 invariant C15.meters.l1.others: gsOthersSame("set", dynRef(up4.appMeterCellIDsPool), dynRef(up4.sessMeterCellIDsPool))
@@ -1530,7 +1537,7 @@ func specPeersInv(up4 *UP4) bool {
 		}) &&
 		forall(func(k tunnelParams) bool {
 			return implies(has(up4.tunnelPeerIDs, k), specPeerIDOK(up4.tunnelPeerIDs[k].id) && up4.tunnelPeerIDs[k].usedBy != nil &&
-				gsOnly[tnlPeerReference]("set", dynRef(up4.tunnelPeerIDs[k].usedBy)))
+				gsTagged[tnlPeerReference]("set", dynRef(up4.tunnelPeerIDs[k].usedBy)))
 		}) &&
 		forall(func(k tunnelParams, a int) bool {
 			return implies(has(up4.tunnelPeerIDs, k) && lo(up4.tunnelPeerIDsPool) <= a && a < hi(up4.tunnelPeerIDsPool), at(up4.tunnelPeerIDsPool, a) != up4.tunnelPeerIDs[k].id)
@@ -1571,8 +1578,9 @@ func specPeerEnv(up4 *UP4) bool {
 //@   ensures C15.peer.add.only: forall k tunnelParams :: k != specPeerParams(up4, far) ==> (has(up4.tunnelPeerIDs, k) <==> old[bool](has(up4.tunnelPeerIDs, k)))
 //@   ensures C04.peer.add.ok: err == nil ==> has(up4.tunnelPeerIDs, specPeerParams(up4, far)) && setHas(up4.tunnelPeerIDs[specPeerParams(up4, far)].usedBy, tnlPeerReference{far.fseID, far.farID})
 //@   ensures C15.peer.add.fail: err != nil ==> (has(up4.tunnelPeerIDs, specPeerParams(up4, far)) <==> old[bool](has(up4.tunnelPeerIDs, specPeerParams(up4, far))))
-//@   ensures C15.peer.add.others: gsOthersSame("set", old[int](dynRef(up4.tunnelPeerIDs[specPeerParams(up4, far)].usedBy)), 0)
-//@   ensures C04.peer.add.write: glen("p4table") <= old[int](glen("p4table"))+1 && (err == nil ==> glen("p4table") == old[int](glen("p4table"))+1)
+//@   ensures C15.peer.add.newset: !old[bool](has(up4.tunnelPeerIDs, specPeerParams(up4, far))) && has(up4.tunnelPeerIDs, specPeerParams(up4, far)) ==> !allocated(up4.tunnelPeerIDs[specPeerParams(up4, far)].usedBy)
+//@   ensures C15.peer.add.others: gsOthersSame("set", old[int](dynRef(up4.tunnelPeerIDs[specPeerParams(up4, far)].usedBy)), 0) && gsOthersSameByType[tnlPeerReference]("set")
+//@   ensures C04.peer.add.write: glen("p4table") <= old[int](glen("p4table"))+1 && (err == nil ==> glen("p4table") == old[int](glen("p4table"))+1 && gfield("p4table.ok", gentry("p4table", old[int](glen("p4table")))) == 1)
 //@   ensures C04.peer.add.method: glen("p4table") == old[int](glen("p4table"))+1 ==> gfield("p4table.n", gentry("p4table", old[int](glen("p4table")))) == 1 && specTableEntry(gentry("p4table", old[int](glen("p4table"))), 0).TableId == p4constants.TablePreQosPipeTunnelPeers && (old[bool](has(up4.tunnelPeerIDs, specPeerParams(up4, far))) ==> gfield("p4table.method", gentry("p4table", old[int](glen("p4table")))) == uint64(p4.Update_MODIFY)) && (!old[bool](has(up4.tunnelPeerIDs, specPeerParams(up4, far))) ==> gfield("p4table.method", gentry("p4table", old[int](glen("p4table")))) == uint64(p4.Update_INSERT))
 
 //@ func (up4 *UP4) removeGTPTunnelPeer(far far)
@@ -1585,7 +1593,7 @@ func specPeerEnv(up4 *UP4) bool {
 //@   ensures C15.peer.del.only: forall k tunnelParams :: k != specPeerParams(up4, far) ==> (has(up4.tunnelPeerIDs, k) <==> old[bool](has(up4.tunnelPeerIDs, k)))
 //@   ensures C15.peer.del.ref: old[bool](has(up4.tunnelPeerIDs, specPeerParams(up4, far))) ==> !setHas(old[set.Set](up4.tunnelPeerIDs[specPeerParams(up4, far)].usedBy), tnlPeerReference{far.fseID, far.farID})
 //@   ensures C15.peer.del.inuse: has(up4.tunnelPeerIDs, specPeerParams(up4, far)) ==> setCard(up4.tunnelPeerIDs[specPeerParams(up4, far)].usedBy) != 0 || glen("p4table") == old[int](glen("p4table"))
-//@   ensures C15.peer.del.others: gsOthersSame("set", old[int](dynRef(up4.tunnelPeerIDs[specPeerParams(up4, far)].usedBy)), 0)
+//@   ensures C15.peer.del.others: gsOthersSame("set", old[int](dynRef(up4.tunnelPeerIDs[specPeerParams(up4, far)].usedBy)), 0) && gsOthersSameByType[tnlPeerReference]("set")
 //@   ensures C04.peer.del.write: glen("p4table") <= old[int](glen("p4table"))+1
 //@   ensures C04.peer.del.method: glen("p4table") == old[int](glen("p4table"))+1 ==> !has(up4.tunnelPeerIDs, specPeerParams(up4, far)) && gfield("p4table.method", gentry("p4table", old[int](glen("p4table")))) == uint64(p4.Update_DELETE) && gfield("p4table.n", gentry("p4table", old[int](glen("p4table")))) == 1 && specTableEntry(gentry("p4table", old[int](glen("p4table"))), 0).TableId == p4constants.TablePreQosPipeTunnelPeers
 
@@ -1603,6 +1611,10 @@ func specPeerEnv(up4 *UP4) bool {
 //@   ensures C15.peers.update.keep: forall k tunnelParams, r tnlPeerReference :: old[bool](has(up4.tunnelPeerIDs, k) && setHas(up4.tunnelPeerIDs[k].usedBy, r)) ==> has(up4.tunnelPeerIDs, k) && setHas(up4.tunnelPeerIDs[k].usedBy, r)
 //@   ensures C15.peers.update.ids: forall k tunnelParams :: old[bool](has(up4.tunnelPeerIDs, k)) ==> has(up4.tunnelPeerIDs, k) && up4.tunnelPeerIDs[k] == old[tunnelPeer](up4.tunnelPeerIDs[k])
 //@   ensures C04.peers.update.ok: err == nil ==> forall j int :: 0 <= j && j < len(fars) && fars[j].Forwards() && fars[j].dstIntf == ie.DstInterfaceAccess && fars[j].tunnelTEID != 0 ==> has(up4.tunnelPeerIDs, specPeerParams(up4, fars[j])) && setHas(up4.tunnelPeerIDs[specPeerParams(up4, fars[j])].usedBy, tnlPeerReference{fars[j].fseID, fars[j].farID})
+//@   ensures C15.peers.update.frame: gsOthersSameByType[tnlPeerReference]("set")
+//@   loop 1 invariant C15.peers.update.l1.frame: gsOthersSameByType[tnlPeerReference]("set")
+//@   ensures C15.peers.update.reject: err == nil ==> forall k int :: old[int](glen("p4table")) <= k && k < glen("p4table") ==> gfield("p4table.ok", gentry("p4table", k)) == 1
+//@   loop 1 invariant C15.peers.update.l1.reject: forall k int :: old[int](glen("p4table")) <= k && k < glen("p4table") ==> gfield("p4table.ok", gentry("p4table", k)) == 1
 //@   loop 1 invariant C15.peers.update.l1.inv: specPeersInv(up4) && !held(&up4.tunnelPeerMu) && specPeerEnv(up4) && specBytesFrame(old[int](sliceRef(up4.tunnelPeerIDsPool))) && (sliceRef(up4.tunnelPeerIDsPool) == old[int](sliceRef(up4.tunnelPeerIDsPool)) || !allocated(up4.tunnelPeerIDsPool))
 //@   loop 1 invariant C15.peers.update.l1.keep: forall k tunnelParams, r tnlPeerReference :: old[bool](has(up4.tunnelPeerIDs, k) && setHas(up4.tunnelPeerIDs[k].usedBy, r)) ==> has(up4.tunnelPeerIDs, k) && setHas(up4.tunnelPeerIDs[k].usedBy, r)
 //@   loop 1 invariant C15.peers.update.l1.ids: forall k tunnelParams :: old[bool](has(up4.tunnelPeerIDs, k)) ==> has(up4.tunnelPeerIDs, k) && up4.tunnelPeerIDs[k] == old[tunnelPeer](up4.tunnelPeerIDs[k])
@@ -1625,7 +1637,7 @@ func specAppsInv(up4 *UP4) bool {
 		}) &&
 		forall(func(k up4ApplicationFilter) bool {
 			return implies(has(up4.applicationIDs, k), specAppIDOK(up4.applicationIDs[k].id) && up4.applicationIDs[k].usedBy != nil &&
-				gsOnly[internalAppReference]("set", dynRef(up4.applicationIDs[k].usedBy)))
+				gsTagged[internalAppReference]("set", dynRef(up4.applicationIDs[k].usedBy)))
 		}) &&
 		forall(func(k up4ApplicationFilter, a int) bool {
 			return implies(has(up4.applicationIDs, k) && lo(up4.applicationIDsPool) <= a && a < hi(up4.applicationIDsPool), at(up4.applicationIDsPool, a) != up4.applicationIDs[k].id)
@@ -1655,7 +1667,8 @@ func specAppEnvelope(up4 *UP4, p pdr) bool {
 //@   ensures C04.app.add.entry: (entry != nil) <==> (err == nil && !old[bool](has(up4.applicationIDs, toUP4ApplicationFilter(pdr))))
 //@   ensures C16.app.add.shape: entry != nil ==> specEntryShape(entry, 1) && !allocated(entry) && entry.TableId == p4constants.TablePreQosPipeApplications && entry.Priority == int32(65535-pdr.precedence)
 //@   ensures C15.app.add.fail: err != nil ==> id == 0 && (has(up4.applicationIDs, toUP4ApplicationFilter(pdr)) <==> old[bool](has(up4.applicationIDs, toUP4ApplicationFilter(pdr))))
-//@   ensures C15.app.add.others: gsOthersSame("set", old[int](dynRef(up4.applicationIDs[toUP4ApplicationFilter(pdr)].usedBy)), 0)
+//@   ensures C15.app.add.newset: !old[bool](has(up4.applicationIDs, toUP4ApplicationFilter(pdr))) && has(up4.applicationIDs, toUP4ApplicationFilter(pdr)) ==> !allocated(up4.applicationIDs[toUP4ApplicationFilter(pdr)].usedBy)
+//@   ensures C15.app.add.others: gsOthersSame("set", old[int](dynRef(up4.applicationIDs[toUP4ApplicationFilter(pdr)].usedBy)), 0) && gsOthersSameByType[internalAppReference]("set")
 
 //@ func (up4 *UP4) removeInternalApplicationIDAndGetP4rtEntry(pdr pdr) (entry *p4.TableEntry, id uint8)
 //@   freshwrites p4.TableEntry, p4.TableAction, p4.TableAction_Action, p4.Action
@@ -1670,7 +1683,7 @@ func specAppEnvelope(up4 *UP4, p pdr) bool {
 //@   ensures C04.app.del.id: old[bool](has(up4.applicationIDs, toUP4ApplicationFilter(pdr))) ==> id == old[uint8](up4.applicationIDs[toUP4ApplicationFilter(pdr)].id)
 //@   ensures C04.app.del.entry: entry != nil ==> !has(up4.applicationIDs, toUP4ApplicationFilter(pdr)) && old[bool](has(up4.applicationIDs, toUP4ApplicationFilter(pdr)))
 //@   ensures C16.app.del.shape: entry != nil ==> specEntryShape(entry, 1) && !allocated(entry) && entry.TableId == p4constants.TablePreQosPipeApplications && entry.Priority == int32(65535-pdr.precedence)
-//@   ensures C15.app.del.others: gsOthersSame("set", old[int](dynRef(up4.applicationIDs[toUP4ApplicationFilter(pdr)].usedBy)), 0)
+//@   ensures C15.app.del.others: gsOthersSame("set", old[int](dynRef(up4.applicationIDs[toUP4ApplicationFilter(pdr)].usedBy)), 0) && gsOthersSameByType[internalAppReference]("set")
 
 // ---------------------------------------------------------------------------
 // C04 / C15 / C16: per-PDR programming (modifyUP4ForwardingConfiguration)
@@ -1777,7 +1790,10 @@ func specModifyEnv(up4 *UP4) bool {
 //@   requires specMetersInv(up4, specAppCells(), specSessCells()) && specPeersInv(up4) && specAppsInv(up4)
 //@   requires C16.modify.envelope: specConfEnvelope(up4) && specRulesEnvelope(pdrs, qers, specCounterCells())
 //@   ensures C11.modify.locks: !held(&up4.tunnelPeerMu) && !held(&up4.applicationMu)
-//@   ensures C15.modify.inv: specAppsInv(up4)
+//@   requires specSetsDistinct(up4)
+//@   ensures C15.modify.inv: specAppsInv(up4) && specSetsDistinct(up4) && specModifyEnv(up4)
+//@   ensures C15.modify.frame: gsOthersSameByType[internalAppReference]("set") && specBytesFrame(old[int](sliceRef(up4.applicationIDsPool))) && (sliceRef(up4.applicationIDsPool) == old[int](sliceRef(up4.applicationIDsPool)) || !allocated(up4.applicationIDsPool))
+//@   loop 1 invariant C15.modify.l1.frame: specSetsDistinct(up4) && gsOthersSameByType[internalAppReference]("set") && specBytesFrame(old[int](sliceRef(up4.applicationIDsPool))) && (sliceRef(up4.applicationIDsPool) == old[int](sliceRef(up4.applicationIDsPool)) || !allocated(up4.applicationIDsPool))
 //@   ensures C15.modify.reject: err == nil ==> forall k int :: old[int](glen("p4table")) <= k && k < glen("p4table") ==> specWriteTolerated(gentry("p4table", k))
 //@   ensures C04.modify.count: err == nil ==> glen("p4table") == old[int](glen("p4table"))+len(pdrs)
 //@   ensures C04.modify.method: forall k int :: old[int](glen("p4table")) <= k && k < glen("p4table") ==> gfield("p4table.method", gentry("p4table", k)) == uint64(methodType)
@@ -1794,3 +1810,63 @@ func specModifyEnv(up4 *UP4) bool {
 //@   ensures C15.converr.nil: (r == nil) <==> (err == nil)
 //@   ensures C15.converr.batch: typeIs[*P4RuntimeError](r) && dynRef(r) != dynRef(err) ==> dynRef(r) != 0 && !allocated(r) && len(r.(*P4RuntimeError).errors) > 0
 //@   loop 1 invariant C15.converr.l1: p4RtError != nil && !allocated(p4RtError) && len(p4RtError.errors) == rangeidx+1
+
+// ---------------------------------------------------------------------------
+// C15 / C04 / C16: create / update / delete orchestration (sendCreate, sendUpdate, sendDelete)
+// ---------------------------------------------------------------------------
+
+// Ghost log "p4batch": one entry per WriteBatchReq call issued directly by the plug-in (counter
+// resets). C16: every counter entry in the batch addresses a cell inside its counter array.
+//@ func (c *P4rtClient) WriteBatchReq(updates []*p4.Update) (err error)
+//@   trusted
+//@   requires C16.batch.counter: forall k int :: 0 <= k && k < len(updates) ==> updates[k] != nil && updates[k].Entity != nil && (typeIs[*p4.Entity_CounterEntry](updates[k].Entity.Entity) ==> updates[k].Entity.Entity.(*p4.Entity_CounterEntry).CounterEntry != nil && updates[k].Entity.Entity.(*p4.Entity_CounterEntry).CounterEntry.Index != nil && 0 <= updates[k].Entity.Entity.(*p4.Entity_CounterEntry).CounterEntry.Index.Index && updates[k].Entity.Entity.(*p4.Entity_CounterEntry).CounterEntry.Index.Index < oracleP4CounterSize(updates[k].Entity.Entity.(*p4.Entity_CounterEntry).CounterEntry.CounterId))
+//@   appends p4batch
+//@   ensures gfield("p4batch.ok", gentry("p4batch", glen("p4batch")-1)) == specB2U(err == nil) && gfield("p4batch.n", gentry("p4batch", glen("p4batch")-1)) == uint64(len(updates))
+
+func specCounterPoolOf(up4 *UP4) set.Set { return up4.counters[preQosCounterID].counterIDsPool }
+
+// specSetsDistinct (C15): the three free-cell pools are three set objects. (The usedBy sets of tunnel
+// peers and applications are told apart from them and from each other by their element types.)
+func specSetsDistinct(up4 *UP4) bool {
+	return len(up4.counters) == 2 &&
+		dynRef(specCounterPoolOf(up4)) != dynRef(up4.appMeterCellIDsPool) && dynRef(specCounterPoolOf(up4)) != dynRef(up4.sessMeterCellIDsPool)
+}
+
+// specUP4Inv (C15): the bookkeeping of all five identifier kinds is consistent.
+func specUP4Inv(up4 *UP4, appSize, sessSize, ctrSize int64) bool {
+	return specModifyEnv(up4) && up4.ueAddrToFSEID != nil && specMetersInv(up4, appSize, sessSize) && specPeersInv(up4) && specAppsInv(up4) &&
+		specSetsDistinct(up4) && specCounterPool(specCounterPoolOf(up4), uint64(ctrSize))
+}
+
+func specPortsOrdered(pdrs []pdr) bool {
+	return forall(func(i int) bool {
+		return implies(lo(pdrs) <= i && i < hi(pdrs), specAppPorts(at(pdrs, i)).low <= specAppPorts(at(pdrs, i)).high)
+	})
+}
+
+func specQFIsValid(qers []qer) bool {
+	return forall(func(i int) bool { return implies(lo(qers) <= i && i < hi(qers), at(qers, i).qfi < 64) })
+}
+
+// specAllWritesOK: every P4Runtime write logged since the given log positions succeeded (table
+// writes: or failed only with OK / ALREADY_EXISTS statuses).
+func specAllWritesOK(t0, m0, b0 int) bool {
+	return forall(func(k int) bool { return implies(t0 <= k && k < glen("p4table"), specWriteTolerated(gentry("p4table", k))) }) &&
+		forall(func(k int) bool { return implies(m0 <= k && k < glen("p4meter"), gfield("p4meter.ok", gentry("p4meter", k)) == 1) }) &&
+		forall(func(k int) bool { return implies(b0 <= k && k < glen("p4batch"), gfield("p4batch.ok", gentry("p4batch", k)) == 1) })
+}
+
+//@ func (up4 *UP4) sendCreate(all PacketForwardingRules, updated PacketForwardingRules) (err error)
+//@   requires specUP4Inv(up4, specAppCells(), specSessCells(), specCounterCells())
+//@   requires len(all.pdrs) == len(updated.pdrs)
+//@   requires C16.create.envelope: specConfEnvelope(up4) && specPortsOrdered(all.pdrs) && specQFIsValid(all.qers)
+//@   ensures C15.create.inv: specUP4Inv(up4, specAppCells(), specSessCells(), specCounterCells())
+//@   ensures C15.create.reject: err == nil ==> specAllWritesOK(old[int](glen("p4table")), old[int](glen("p4meter")), old[int](glen("p4batch")))
+//@   ensures C15.create.counters: err == nil ==> forall i int :: 0 <= i && i < len(all.pdrs) ==> int64(all.pdrs[i].ctrID) < specCounterCells() && old[bool](setHas(specCounterPoolOf(up4), uint64(all.pdrs[i].ctrID))) && !setHas(specCounterPoolOf(up4), uint64(all.pdrs[i].ctrID))
+//@   ensures C15.create.counters.distinct: err == nil ==> forall i int, j int :: 0 <= i && i < j && j < len(all.pdrs) ==> all.pdrs[i].ctrID != all.pdrs[j].ctrID
+//@   loop 1 invariant C15.create.l1.inv: specUP4Inv(up4, specAppCells(), specSessCells(), specCounterCells()) && len(all.pdrs) == len(updated.pdrs)
+//@   loop 1 invariant C15.create.l1.reject: specAllWritesOK(old[int](glen("p4table")), old[int](glen("p4meter")), old[int](glen("p4batch")))
+//@   loop 1 invariant C15.create.l1.counters: forall i int :: 0 <= i && i <= rangeidx ==> int64(all.pdrs[i].ctrID) < specCounterCells() && old[bool](setHas(specCounterPoolOf(up4), uint64(all.pdrs[i].ctrID))) && !setHas(specCounterPoolOf(up4), uint64(all.pdrs[i].ctrID))
+//@   loop 1 invariant C15.create.l1.distinct: forall i int, j int :: 0 <= i && i < j && j <= rangeidx ==> all.pdrs[i].ctrID != all.pdrs[j].ctrID
+//@   loop 1 invariant C16.create.l1.envelope: specPortsOrdered(all.pdrs) && specQFIsValid(all.qers) && specConfEnvelope(up4)
+//@   loop 2 invariant C15.create.l2.inv: up4.ueAddrToFSEID != nil && up4.fseidToUEAddr != nil
